@@ -4,6 +4,7 @@ import (
 	"fmt"
 	"go/token"
 	"go/types"
+	"os"
 	"sort"
 	"strconv"
 	"strings"
@@ -445,6 +446,9 @@ func constText(s string) (int64, bool) {
 func (e *Ex) paramUp(p *ssa.Parameter, d int) (string, bool) {
 	w := e.w
 	g := p.Parent()
+	if os.Getenv("YV_DEBUG") == "paramup" {
+		fmt.Fprintln(os.Stderr, "paramUp", g, "focus", w.focus, "transp", w.transparent(g), "sites", len(w.sitesIn(w.focus, g)), "dyn", w.dynCallable(g))
+	}
 	if w == nil || w.focus == nil || g == w.focus || !w.transparent(g) || e.up[p] {
 		return "", false
 	}
